@@ -403,6 +403,6 @@ mlf_from_raw_buffer = Contract("C01.MultiLineFastaBuffer.from_raw_buffer", targe
                                ensures=_ens_mlf, hints=lambda ctx, st, ks: [I(k) - 1 for k in ks[:1]],
                                raises={"RuntimeError": lambda ctx, st: [("only.when.no.second.entry.starts.in.the.chunk", Forall(lambda p: Not(_entry_start(st, p))))]},
                                decorators={"@classmethod": "receiver is the class"}, dropped=["exception message"],
-                               canaries=[("first entry start instead of the last", "cut_chunk = chunk[:entry_starts[-1]]", "cut_chunk = chunk[:entry_starts[0]]"),
-                                         ("cut after the marker", "entry_starts = new_lines[new_entries]+1", "entry_starts = new_lines[new_entries]+2")])
+                               canaries=[("cut after the marker", "entry_starts = new_lines[new_entries]+1", "entry_starts = new_lines[new_entries]+2"),
+                                         ("first entry start instead of the last", "cut_chunk = chunk[:entry_starts[-1]]", "cut_chunk = chunk[:entry_starts[0]]")])
 CONTRACTS.append(mlf_from_raw_buffer)
